@@ -246,6 +246,8 @@ def run(ctx):
     ctx.floor('generator call sites', n_sites, 3)
     check_private_counts(ctx, fi, G, counts, sites, group_sites, be)
     check_model_unchanged(ctx, fi)
+    from ._generic import seeded_generator_scope
+    seeded_generator_scope(ctx, ctx.repo.func(GM, 'GraphicalModel.synthetic_data'), 'sampling-independence')
     check_conditioning(ctx, fi, be)
     check_order_complete(ctx)
 
